@@ -59,7 +59,9 @@ class C15(Prop):
                 "msg": st.sampled_from(["step b failed", "step b failed", "", "first line\nsecond line"]),
                 # an extra external event (one no step accepts) sent through the service at a generated instant, typically the very
                 # instant the run ends; its delivery runs in a fire-and-forget task and may land after the terminal write
-                "extra": st.sampled_from([None, None, ["end", 0], ["end", 0], ["end", -0.5], ["at", 0], ["at", 1], ["at", 2.5]]),
+                "extra": st.sampled_from([None, None, ["end", 0], ["end", 0], ["end", -0.5], ["at", 0], ["at", 1], ["at", 2.5], ["in_write", 0.125], ["in_write", 0.125]]),
+                # ("in_write": the store's writes take a quarter of a virtual second, and the extra event is sent in the middle of the
+                # run's terminal status write: accepted while the handler still reads 'running', delivered after the write landed)
                 # a store with real I/O suspends inside its calls: generated numbers of event-loop yields before each store call
                 "yields": st.sampled_from([[], [], [1], [0, 2], [2, 0, 1], [1, 3], [3, 1, 0, 2], [5, 0]]),
                 # the pause before a failed store write is retried: none (fast), half a virtual second (a run can end meanwhile), or three
@@ -143,7 +145,9 @@ class C15(Prop):
             tmp = srv.tmp_root() if case["store"] == "sqlite" else None
             try:
                 real = srv.make_store(case["store"], tmp)
-                proxy = srv.StoreProxy(real, fail_plan={"update_handler_status": case["fail_status"], "update": case["fail_update"], "append_event": case["fail_event"]}, yields=case.get("yields") or None)
+                in_write = bool(case.get("extra")) and case["extra"][0] == "in_write"
+                proxy = srv.StoreProxy(real, fail_plan={"update_handler_status": case["fail_status"], "update": case["fail_update"], "append_event": case["fail_event"]}, yields=case.get("yields") or None,
+                                       latency={"read": 0.0, "write": 0.25} if in_write else 0.0)
                 ends = [case["end"]] + ([case["again"]] if case["again"] else [])
                 for n, end in enumerate(ends):
                     log["n"] = n
@@ -160,7 +164,25 @@ class C15(Prop):
                     inner = None
                     t0 = VClock.t
                     extra = case.get("extra")
-                    if extra and n == 0:
+                    if extra and n == 0 and extra[0] == "in_write":
+
+                        def on_write(run_id, kw, life=life, info=info, delay=extra[1]):
+                            if kw.get("status") in ("completed", "failed", "cancelled") and "extra_task" not in info and not info.get("extra_armed"):
+                                info["extra_armed"] = True
+
+                                async def send_in_write():
+                                    await asyncio.sleep(delay)
+                                    try:
+                                        await life.server._service.send_event("h1", ge.E5(extra=True))
+                                        info["extra_sent_at"] = VClock.t - t0
+                                        info["extra_in_terminal_write"] = True
+                                    except Exception as e:  # noqa: BLE001
+                                        info["extra_rejected"] = repr(e)[:100]
+
+                                info["extra_task"] = asyncio.create_task(send_in_write())
+
+                        proxy.on_status_write_start = on_write
+                    elif extra and n == 0:
                         nominal_end = case["d1"] + case["d2"]
                         at = max(0.0, nominal_end + extra[1]) if extra[0] == "end" else extra[1]
 
@@ -275,6 +297,8 @@ class C15(Prop):
             r.classes.append("write_retried_after_a_pause")
         if (case.get("backoff") or 0) >= 3 and inj:
             r.classes.append("write_retried_after_a_long_pause")
+        if any(i.get("extra_in_terminal_write") for i in obs["runs"]):
+            r.classes.append("extra_event_accepted_during_terminal_write")
         if any("extra_sent_at" in i for i in obs["runs"]):
             r.classes.append("extra_event_accepted")
             if any("extra_sent_at" in i and i.get("ended_at") is not None and abs(i["extra_sent_at"] - i["ended_at"]) < 1e-6 for i in obs["runs"]):
